@@ -363,6 +363,9 @@ def rule_r5(p, res):
                 {"site": norm(n), "scale_rows_per_mode": rows})
 
 
+# rules of sibling properties over code paths this property's statement also quantifies over (DESIGN.md section 3, shared rules)
+ALSO = ['C02.R2']
+
 RULES = [rule_r1, rule_r2, rule_r3, rule_r4, rule_r5]
 
 WITNESSES = [
